@@ -95,9 +95,6 @@ func (m *Machine) hashAppend(p Ptr, more []T) {
 // finish on the 40-byte SHA-1 pre-images of C40 (measured: > 120 s on z3
 // 4.8.12, z3 5.1.0 and cvc5).
 func (m *Machine) ufHash(family string, resW int, bs []T) T {
-	if len(bs) > 256 {
-		m.unsupported("%s over %d bytes", family, len(bs))
-	}
 	// fully concrete pre-image: the real function (a valid interpretation of the
 	// uninterpreted symbol; keeps concrete-mode conformance runs and native
 	// replays exact)
@@ -109,6 +106,9 @@ func (m *Machine) ufHash(family string, resW int, bs []T) T {
 			break
 		}
 		raw[i] = byte(b.Val)
+	}
+	if !conc && len(bs) > 256 {
+		m.unsupported("%s over %d bytes", family, len(bs))
 	}
 	var concRes T
 	if conc {
